@@ -421,6 +421,8 @@ func pointSource(g *groups.G, rng *kc.Rng) func(i int) []byte {
 		var pt kyber.Point
 		ok := kc.Recover(func() string {
 			switch {
+			case i == 7:
+				pt = g.Group.Point().Null() // the identity's encoding is a legitimate input too
 			case g.CanHash && i%3 == 1:
 				pt = g.Group.Point().(kyber.HashablePoint).Hash(r.Bytes(1 + r.Intn(40)))
 			case g.CanEmbed && i%3 == 2:
